@@ -77,8 +77,9 @@ def tlc_barrier(wd, tr):
     ev = []
     st = trn = 0
     nodes = "{1, 2, 3}" if tr == "quick" else "{1, 2, 3, 4}"
-    expect = {("loud", "asis"): None, ("silent", "asis"): None, ("loud", "no-sync2"): "FirstSendAfterAllInit", ("loud", "reg-after-sync2"): "NoLoss",
-              ("loud", "init-after-sync2"): "FirstSendAfterAllInit", ("silent", "no-box"): "NoLoss"}
+    expect = {("loud", "asis"): None, ("silent", "asis"): None, ("loud", "no-sync2"): {"FirstSendAfterAllInit", "NoLoss", "NoEarly"},
+              ("loud", "reg-after-sync2"): {"NoLoss"}, ("loud", "init-after-sync2"): {"FirstSendAfterAllInit", "NoEarly"},
+              ("silent", "no-box"): {"NoLoss", "NoEarly"}, ("loud", "reg-before-init"): {"NoEarly"}}
     for (mode, variant), want in expect.items():
         name = "B_%s_%s" % (mode, variant.replace("-", "_"))
         with open(os.path.join(wd, name + ".cfg"), "w") as f:
@@ -87,14 +88,14 @@ def tlc_barrier(wd, tr):
         r = vlib.run_tlc("Barrier", name + ".cfg", ["Barrier.tla"], workdir=wd, workers=4, timeout=900, heap="4g")
         if want is None and r.violation:
             raise vlib.CheckError("Barrier model (%s) violates %s at design level\n%s" % (mode, r.violation, "".join(r.error_trace[-2:])[:2000]))
-        if want is not None and r.violation != want:
+        if want is not None and r.violation not in want:
             raise vlib.CheckError("Barrier what-if variant %s (%s) should be refuted by %s but TLC reports %r: the barrier invariants are vacuous" % (
-                variant, mode, want, r.violation))
+                variant, mode, sorted(want), r.violation))
         st += r.distinct
         trn += r.generated
         ev.append(dict(config="barrier %s %s" % (mode, variant), nodes=nodes, distinct_states=r.distinct, states_generated=r.generated,
-                       refuted_by=want, liveness="AllDone under weak fairness" if want is None else None))
-    log("barrier: design holds in loud and silent mode; 4 what-if variants refuted (%d states)" % st)
+                       refuted_by=r.violation if want else None, liveness="AllDone under weak fairness" if want is None else None))
+    log("barrier: design holds in loud and silent mode; 5 what-if variants refuted (%d states)" % st)
     # late-caller case list: every non-empty proper subset of the members calls KeyGen late
     with open(os.path.join(wd, "MC_late.tla"), "w") as f:
         f.write("""---- MODULE MC_late ----
